@@ -54,7 +54,7 @@ CLAIMED = {
                      None, "equality of each ratio with its set-theoretic definition is definitional in the model and established against the implementation by the correspondence + oracle; float rounding."), design="DESIGN.md 5 C17"),
  'C18': dict(text=T("comment/empty lines skipped and trailing comments ignored (C18_comments), short rows (C18_short_rows), readers = readers on the non-skipped rows (C18_noise), TypeError (C18_type_error), compact_timeslot is a strictly increasing bijection onto 0..k-1 (C18_compact), keys (C18_keys).",
                      None, "multi-character comment markers/delimiters, non-integer fields, Python's int() extras ('_' separators, non-ASCII digits)."), design="DESIGN.md 5 C18"),
- 'C19': dict(text=T("blocked calls are no-ops raising NetworkXNotImplemented (C19_blocked_noop); no sequence over the API alphabet can break timelines/adjacency/stream/snapshot invariants (C19_wf_closed); frozen graphs (C19_frozen_partial, C19_is_frozen).",
+ 'C19': dict(text=T("blocked calls are no-ops raising NetworkXNotImplemented (C19_blocked_noop); no sequence over the API alphabet can break timelines/adjacency/stream/snapshot invariants (C19_wf_closed); frozen graphs (C19_frozen_partial, C19_is_frozen); a cleared graph is a fresh graph (C19_clear_fresh, C19_clear_then_calls, C19_clear_edges_fresh).",
                      "add_interaction succeeds on a frozen graph (C19_frozen_refuted, K-C19-1).",
                      "the classification of every inherited networkx callable into that alphabet is enumerated by reflection per run (exhaustive over the installed API), not proved."), design="DESIGN.md 5 C19"),
  'C20': dict(text=T("scores in [-1,1] (C20_bounded; for every score of the RESULT: C20_result_bounded, C20_result_sliding_bounded), result-level label renaming and single-label statements (C20_result_label_renaming, C20_result_label_renaming_total, C20_result_same_label: 1 exactly for the nodes one of whose time-respecting paths in the window ends elsewhere), domain = nodes present at start in the window and None for an empty window (C20_domain, C20_none), single shared label gives 1/0 (C20_same_label), invariance under injective renaming of label values (C20_label_renaming) and under EVERY injective renaming of node ids (C20_node_renaming for graphs built by the renamed calls, C20_node_renaming_state, C20_node_renaming_sliding, C20_renaming_builds: the whole pipeline is equivariant), sliding = pointwise (C20_sliding).",
